@@ -137,6 +137,7 @@ func RunHistory(rng *common.Rng, cfg Config) (*Run, error) {
 	mustAnnounce := make([]bool, cfg.K) // [EXPUNGEISSUED] was reported and no permitting flush happened yet
 	overtook := make([]bool, cfg.K)     // the session ran a state-changing command while foreign updates were still queued for it
 	needFlush := make([]bool, cfg.K)    // updates were delivered since the session's last permitting flush
+	idleMust := make([]bool, cfg.K)     // IDLE was entered while a removal was known to be held back: it must be announced
 	staleSel := make([]bool, cfg.K)     // the session (re-)selected while updates from before the SELECT were still queued for it
 	selfReadd := make([]bool, cfg.K)    // the session copied/moved a message onto its own selected mailbox
 	for i := range mir {
@@ -245,6 +246,18 @@ func RunHistory(rng *common.Rng, cfg Config) (*Run, error) {
 		}
 		if permitting || o.Cmd == "select" {
 			needFlush[o.S] = false
+		}
+		if o.Cmd == "idle" {
+			idleMust[o.S] = pendingExp[o.S] > 0
+			mustAnnounce[o.S] = false
+			pendingExp[o.S] = 0
+		}
+		if o.Cmd == "done" {
+			// everything the session received while idling is read at DONE (incl. the flush at the start of IDLE)
+			if idleMust[o.S] && nexp == 0 {
+				fail("C05", "removal held back before IDLE was not announced by IDLE", strings.Join(obs.Raw, " / "))
+			}
+			idleMust[o.S] = false
 		}
 		if permitting && o.Cmd != "idle" {
 			if mustAnnounce[o.S] && pendingExp[o.S] > 0 && nexp == 0 {
